@@ -546,6 +546,7 @@ class ChainedDiscretizer(BaseDiscretizer):
             stringer = StringDiscretizer(
                 qualitative_features=features_to_convert,
                 values_orders=self.values_orders,
+                str_nan=self.str_nan,
                 n_jobs=self.n_jobs,
             )
             x_copy = stringer.fit_transform(x_copy, y)
